@@ -63,7 +63,7 @@ func (h *graphqlWSHandler) HandleInit(parameters json.RawMessage) error {
 func (h *graphqlWSHandler) HandleStart(id string, query string, variables map[string]any, operationName string) {
 	ctx := context.WithValue(h.Context, apiContextKey, h.API)
 
-	apiRequest := &apiRequest{}
+	apiRequest := newAPIRequest()
 	ctx = context.WithValue(ctx, apiRequestContextKey, apiRequest)
 
 	req := &graphql.Request{
@@ -123,7 +123,9 @@ func (h *graphqlWSHandler) HandleStart(id string, query string, variables map[st
 					if err := sourceStream.Run(ctx, func(event any) {
 						req := *req
 						req.InitialValue = event
-						if err := h.Connection.SendData(context.Background(), id, h.API.execute(&req, &info)); err != nil {
+						resp := h.API.execute(&req, &info)
+						apiRequest.finishExecution()
+						if err := h.Connection.SendData(context.Background(), id, resp); err != nil {
 							h.Logger.Warn(errors.Wrap(err, "error sending graphql-ws data"))
 						}
 					}); err != nil && err != context.Canceled {
@@ -137,6 +139,7 @@ func (h *graphqlWSHandler) HandleStart(id string, query string, variables map[st
 			}
 		} else {
 			resp = h.API.execute(req, &info)
+			apiRequest.finishExecution()
 		}
 	}
 
